@@ -326,10 +326,12 @@ def apply_real(model, op: dict) -> None:  # noqa: ANN001
     elif o == "update_derived":
         model.update_derived(op["name"], rm.fn_of(op) if "fn" in op else None, args=list(op["args"]) if "args" in op else None)
     elif o == "update_reaction":
-        model.update_reaction(
-            op["name"], rm.fn_of(op) if "fn" in op else None, args=list(op["args"]) if "args" in op else None,
-            stoichiometry={k: rm._coef_real(v) for k, v in op["stoich"].items()} if "stoich" in op else None,  # noqa: SLF001
-        )
+        st_ = {k: rm._coef_real(v) for k, v in op["stoich"].items()} if "stoich" in op else None  # noqa: SLF001
+        try:
+            model.update_reaction(op["name"], rm.fn_of(op) if "fn" in op else None, args=list(op["args"]) if "args" in op else None, stoichiometry=st_)
+        finally:
+            if st_ is not None:
+                rm.caller_goes_on_using(st_)
     elif o == "update_surrogate":
         sur = None
         if "fn" in op:
